@@ -66,6 +66,15 @@ COMPOSITES = {
             dict(name="c1", lo=1, hi=1, structure=dict(params=[V("a", U16)])),
             dict(name="c2", lo=2, hi=2, structure=None)])), V("t", U8, bytepos=5)])), TAIL],
         "cases": ["c1", "c2"]},
+    "reserved-shares-byte": {"params": [SID, dict(kind="reserved", name="r", bl=4, bytepos=1, bitpos=0),
+                                        V("hi", U4, bytepos=1, bitpos=4), TAIL]},
+    "const-after-reserved": {"params": [SID, dict(kind="reserved", name="r", bl=8), C("c2", 0x77),
+                                        V("a", U8)]},
+    "overlap-three": {"params": [SID, V("a", U4, bytepos=1, bitpos=0), V("b", U4, bytepos=1, bitpos=4),
+                                 V("c", dict(dt="A_UINT32", bl=2), bytepos=1, bitpos=1)]},
+    "static-field-wrong-count": {"params": [SID, V("f", dict(
+        complex="staticfield", count=2, item_byte_size=2,
+        structure=dict(params=[V("x", U8), V("y", U8)]))), TAIL], "counts": [0, 1, 3]},
     "structure": {"params": [SID, V("st", S([V("x", U8), V("y", U16)])), TAIL]},
     "structure-positions": {"params": [SID, V("pre", U8),
                                        V("st", S([V("x", U8, bytepos=1), V("y", U8, bytepos=0)])),
@@ -214,7 +223,7 @@ def gen_dop(sx, d, path, shape, prop):
     if k == "structure":
         return gen_params(sx, d["params"], path, shape, prop)
     if k in ("staticfield", "dynlenfield", "eopfield", "endmarkerfield"):
-        n = d["count"] if k == "staticfield" else shape["count"]
+        n = shape["count"] if (k != "staticfield" or "count" in shape) else d["count"]
         return [gen_params(sx, d["structure"]["params"], f"{path}[{i}]", shape, prop)
                 for i in range(n)]
     if k == "mux":
@@ -368,6 +377,8 @@ def ref_dop(p, pos, bitpos, d, v, at_end, env):
     st = d.get("structure")
     sd = dict(complex="structure", params=st["params"]) if st else None
     if k == "staticfield":
+        if len(v) != d["count"]:
+            raise odxref.Reject("number of items differs from FIXED-NUMBER-OF-ITEMS")
         ibs = d["item_byte_size"]
         for i, item in enumerate(v):
             n = ref_dop(p, pos + i * ibs, 0, sd, item, False, env)
@@ -630,11 +641,11 @@ def _run_composite(sx, cfg, env, obj, spec, prop, shape, vals, renv, kwargs):
             sx.observe("decode-exception", type(e).__name__)
             sx.fail("own-pdu-decodes")
             return
-        if cfg["name"] != "overlap":  # overlapping parameters cannot both come back
+        if cfg["name"] not in ("overlap", "overlap-three"):  # overlapping parameters cannot both come back
             require_same(sx, dec, want, "roundtrip:values")
         if cfg["what"] == "response":
             sx.cover("echo")
-        if cfg["name"] not in ("out-of-order", "overlap"):
+        if cfg["name"] not in ("out-of-order", "overlap", "overlap-three", "reserved-shares-byte"):
             sx.require(ds.cursor_byte_position == len(pdu), "decode-consumes-whole-pdu")
 
     if prop == "C02":
